@@ -271,6 +271,38 @@ def r9_subslice_copy(text):
         text = text[:m.start()] + new + text[m.end():]
 
 
+def r12_subslice_to_subslice(text):
+    """`V[..B].clone_from_slice(&S[C..D]);` (also copy_from_slice; may span two lines) =>
+    `assert!(B <= V.len() && C <= D && D <= S.len() && (B) == (D) - (C)); for c__N in 0..(B) { V[c__N] = S[(C) + c__N]; }`
+    (Verus does not model sub-slice borrows; the assert keeps every panic condition of the two slicings and of the length check)."""
+    n = 0
+    while True:
+        m = re.search(r'(?m)^(\s*)([A-Za-z_][A-Za-z0-9_]*)\[\.\.([^\]]+)\]\s*\.(?:clone|copy)_from_slice\(&([A-Za-z_][A-Za-z0-9_]*)\[([A-Za-z0-9_]+)\.\.([^\]]+)\]\);[ \t]*$', text)
+        if not m:
+            return text, n
+        n += 1
+        ind, v, b, src, c, d = m.groups()
+        k = f'c__{n}'
+        nl = text[m.start():m.end()].count('\n')
+        new = (f'{ind}assert!(({b}) <= {v}.len() && ({c}) <= ({d}) && ({d}) <= {src}.len() && ({b}) == ({d}) - ({c})); '
+               f'for {k} in 0..({b}) {{ {v}[{k}] = {src}[({c}) + {k}]; }}' + '\n' * nl)
+        text = text[:m.start()] + new + text[m.end():]
+
+
+def r13_copied_take(text):
+    """`for V in X.iter().copied().take(N) {` => `for t__K in 0..(if (N) < X.len() { N } else { X.len() }) { let V = X[t__K];`"""
+    n = 0
+    while True:
+        m = re.search(r'(?m)^(\s*)for (\w+) in ([A-Za-z_][A-Za-z0-9_]*)\.iter\(\)\.copied\(\)\.take\(([A-Za-z0-9_]+)\) \{[ \t]*$', text)
+        if not m:
+            return text, n
+        n += 1
+        ind, v, x, cnt = m.groups()
+        i = f't__{n}'
+        new = f'{ind}for {i} in 0..(if {cnt} < {x}.len() {{ {cnt} }} else {{ {x}.len() }}) {{ let {v} = {x}[{i}];'
+        text = text[:m.start()] + new + text[m.end():]
+
+
 def r10_windows2(text):
     """`for W in X.windows(2) {` => `for w__N in 0..(if X.len() >= 2 { X.len() - 1 } else { 0 }) { let W = [X[w__N], X[w__N + 1]];`
     (Verus has no specification of slice::Windows; for Copy elements W[0], W[1] read the same values)."""
@@ -332,7 +364,7 @@ def r7_param_patterns(text):
     return _apply_edits(text, edits), n
 
 
-RULES = [('R0', r0_visibility_and_stats), ('R1', r1_ref_patterns), ('R7', r7_param_patterns), ('R8', r8_assert_eq), ('R9', r9_subslice_copy), ('R10', r10_windows2), ('R11', r11_collect),
+RULES = [('R0', r0_visibility_and_stats), ('R1', r1_ref_patterns), ('R7', r7_param_patterns), ('R8', r8_assert_eq), ('R9', r9_subslice_copy), ('R10', r10_windows2), ('R11', r11_collect), ('R12', r12_subslice_to_subslice), ('R13', r13_copied_take),
          ('R2', r2_array_literal_loops), ('R3', r3_zip_enumerate)]
 
 
